@@ -564,7 +564,42 @@ func (x *ctx) asTerm(v val, t types.Type) term {
 	return x.zeroVal(t).t
 }
 
+// globalSlice models a package-level slice variable whose contents are declared in the contract file
+// (//@ global name = v0, v1, ...; compared with the real package values by an executed test on every run).
+func (x *ctx) globalSlice(st *state, key string, t types.Type) (val, bool) {
+	vals, ok := x.w.globals[strings.TrimPrefix(key, "global.")]
+	if !ok {
+		return val{}, false
+	}
+	sl, ok := t.Underlying().(*types.Slice)
+	if !ok {
+		return val{}, false
+	}
+	es, ok := x.leafSort(sl.Elem())
+	if !ok || !es.isBV() {
+		return val{}, false
+	}
+	name := "gslice_" + symName(key)
+	x.declare(name, sRef.name)
+	r := term{name, sRef}
+	st.define(not(eq(r, null)))
+	la := x.arr(st, "Len", false, sInt)
+	st.define(fmt.Sprintf("(= (select %s %s) %s)", la, r.s, bvlit(uint64(len(vals)), 64)))
+	ea := x.arr(st, x.elemKey(sl.Elem()), true, es)
+	for i, v := range vals {
+		st.define(fmt.Sprintf("(= (select (select %s %s) %s) %s)", ea, r.s, bvlit(uint64(i), 64), bvlit(v, es.w)))
+	}
+	x.knownLen[r.s] = len(vals)
+	x.assumed["package variable "+strings.TrimPrefix(key, "global.")+" has the declared contents (checked by execution on every run)"] = true
+	return scalar(r), true
+}
+
 func (x *ctx) load(st *state, p val, t types.Type) val {
+	if p.ptr != nil && p.ptr.cell == 0 && strings.HasPrefix(p.ptr.key, "global.") {
+		if v, ok := x.globalSlice(st, p.ptr.key, t); ok {
+			return v
+		}
+	}
 	if p.ptr == nil {
 		// pointer held as a term: a pointer to a scalar/struct object on the heap
 		if p.t.s == "" {
